@@ -20,6 +20,13 @@ lookup-history   (E2) call histories on ONE trajectory object: the same number i
             and long histories over all numbers x units x policies, run twice; every answer against the oracle.
 accessor-history (E2) every species form x position form x triple on ONE object, forwards then backwards; the
             trajectory (data, t, system state) must be unchanged after the reads.
+accessor-modify  (E2) on ONE object the data are changed between the reads through every documented route (value
+            setter, set_value, in-place element writes, set_at with a UnitValue in another unit, units relabel), in
+            the sequences [read-all, modify, read-all] and [modify, read-all, modify, read-all], with every accessor
+            as the first reader; after each step all accessors must agree with direct indexing of the CURRENT data.
+            Plus copy.deepcopy histories (the copy keeps its own data).
+lookup-modify    (E2) the same for t (value setter, set_at in another unit, units relabel): the lookups follow the
+            current times.
 simulated   (small) the same accessor checks on trajectories produced by the Euler engine for a network
             without reactions and without diffusion (every sample equals the initial state).
 
@@ -151,15 +158,19 @@ def _units_ok(got_units, qunit):
 
 
 class _Checker:
-    def __init__(self, out, stats, prefix=""):
+    def __init__(self, out, stats, prefix="", suffix="", note=""):
         self.out = out
         self.stats = stats
         self.prefix = prefix
+        self.suffix = suffix
+        self.note = note
 
     def fail(self, key, what):
         if self.prefix:
             key = "C17:" + self.prefix + key[4:]
-        self.out.append((key, what))
+        if self.suffix:
+            key = key + ":" + self.suffix
+        self.out.append((key, self.note + what))
 
     def scalar(self, site, tag, got, expected, qunit, ctxt):
         self.stats["evaluations"] += 1
@@ -168,13 +179,14 @@ class _Checker:
                       % (ctxt, type(got).__name__))
             return
         if not (got.value == expected):
-            self.fail("C17:%s:wrong-value:%s" % (site, tag),
-                      "%s = %r, expected %r (value = 10^4*sample + 10^2*species + cell)" % (ctxt, got.value, expected))
+            self.fail("C17:%s:wrong-value:%s" % (site, tag), "%s = %r, expected %r" % (ctxt, got.value, expected))
         if not _units_ok(got.units, qunit):
             self.fail("C17:%s:wrong-units:%s" % (site, tag), "%s has units %s, the data's units are %s"
                       % (ctxt, got.units, qunit))
 
-    def vector(self, site, tag, got, expected, qunit, ctxt):
+    def vector(self, site, tag, got, expected, qunit, ctxt, scale=None):
+        """scale: None = exact comparison; else per-entry sum of |terms| (a sum of non-integers is compared with
+        1e-9 * scale, DESIGN 2.6)."""
         self.stats["evaluations"] += 1
         if not isinstance(got, UnitArray):
             self.fail("C17:%s:result-type:%s" % (site, tag), "%s returned %s, a UnitArray is specified"
@@ -188,7 +200,8 @@ class _Checker:
         if len(vals) != len(expected):
             self.fail("C17:%s:wrong-length:%s" % (site, tag), "%s has %d entries, expected %d"
                       % (ctxt, len(vals), len(expected)))
-        elif vals != expected:
+        elif (vals != expected) if scale is None else any(
+                not abs(a - b) <= 1e-9 * sc for a, b, sc in zip(vals, expected, scale)):
             self.fail("C17:%s:wrong-value:%s" % (site, tag), "%s = %r, expected %r" % (ctxt, vals, expected))
         if not _units_ok(got.units, qunit):
             self.fail("C17:%s:wrong-units:%s" % (site, tag), "%s has units %s, the data's units are %s"
@@ -204,10 +217,27 @@ class _Checker:
             return False, None
 
 
-def _check_accessors(tr, ns, nsp, nc, space, qunit, spform, posform, out, stats, triple=None, rev=False, prefix=""):
+def _merged(valf, ns, nc, s):
+    """expected merged trajectory of species s and, when some term is not an integer, the tolerance scale."""
+    exp, scale, exact = [], [], True
+    for k in range(ns):
+        terms = [valf(k, s, c) for c in range(nc)]
+        exact = exact and all(float(x).is_integer() and abs(x) < 2.0 ** 40 for x in terms)
+        exp.append(float(sum(terms)))
+        scale.append(sum(abs(x) for x in terms))
+    return exp, (None if exact else scale)
+
+
+def _check_accessors(tr, ns, nsp, nc, space, qunit, spform, posform, out, stats, triple=None, rev=False, prefix="",
+                     valf=None, only_sites=None, suffix="", note=""):
     """all accessor reads of one trajectory for one species form and one position form.
-    rev: visit samples / species / cells in decreasing order; prefix: prepended to the site part of the keys."""
-    ck = _Checker(out, stats, prefix)
+    rev: visit samples / species / cells in decreasing order; prefix / suffix: added to the site / end of the keys;
+    valf(sample, species, cell): expected value (default: the construction value); only_sites: restrict the reads
+    to these accessors; note: text put in front of the messages (the history that led here)."""
+    ck = _Checker(out, stats, prefix, suffix, note)
+    if valf is None:
+        valf = val
+    want = (lambda site: True) if only_sites is None else (lambda site: site in only_sites)
     kind = space[0]
     ptag = "%s-%s:%s" % (kind, posform, spform)
     stag = "%s:%s" % (kind, spform)
@@ -220,58 +250,67 @@ def _check_accessors(tr, ns, nsp, nc, space, qunit, spform, posform, out, stats,
 
     # whole state: the sample's contiguous block
     for k in samples:
+        if not want("get_state_whole"):
+            break
         ok, got = ck.call("get_state_whole", kind, "%s get_state(None, %d)" % (desc, k), lambda: tr.get_state(None, k))
         if ok:
-            exp = [val(k, s, c) for s in range(nsp) for c in range(nc)]
+            exp = [valf(k, s, c) for s in range(nsp) for c in range(nc)]
             ck.vector("get_state_whole", kind, got, exp, qunit, "%s get_state(None, %d)" % (desc, k))
 
     for s in speciess:
         sp = _species_arg(spform, s)
         # per-sample state
         for k in samples:
+            if not want("get_state"):
+                break
             c_ = "%s get_state(%r, %d)" % (desc, sp if spform != "object" else "Species(%s)" % LABELS[s], k)
             ok, got = ck.call("get_state", stag, c_, lambda: tr.get_state(sp, k))
             if ok:
-                ck.vector("get_state", stag, got, [val(k, s, c) for c in range(nc)], qunit, c_)
+                ck.vector("get_state", stag, got, [valf(k, s, c) for c in range(nc)], qunit, c_)
         # merged trajectory = sum over cells (position is documented as ignored)
-        c_ = "%s get_trajectory(species %d as %s, merge=True)" % (desc, s, spform)
-        ok, got = ck.call("get_trajectory_merged", stag, c_, lambda: tr.get_trajectory(sp, merge=True))
-        if ok:
-            exp = [float(sum(val(k, s, c) for c in range(nc))) for k in range(ns)]
-            ck.vector("get_trajectory_merged", stag, got, exp, qunit, c_)
+        if want("get_trajectory_merged"):
+            c_ = "%s get_trajectory(species %d as %s, merge=True)" % (desc, s, spform)
+            ok, got = ck.call("get_trajectory_merged", stag, c_, lambda: tr.get_trajectory(sp, merge=True))
+            if ok:
+                exp, scale = _merged(valf, ns, nc, s)
+                ck.vector("get_trajectory_merged", stag, got, exp, qunit, c_, scale)
         for c in cells:
             pos = _position_arg(posform, c, space)
-            # per-cell trajectory
             c_ = "%s get_trajectory(species %d as %s, position=%r)" % (desc, s, spform, pos)
-            ok, got = ck.call("get_trajectory", ptag, c_, lambda: tr.get_trajectory(sp, pos))
-            if ok:
-                ck.vector("get_trajectory", ptag, got, [val(k, s, c) for k in range(ns)], qunit, c_)
-            ok, got = ck.call("get_trajectory", ptag, c_ + " [keyword]", lambda: tr.get_trajectory(sp, position=pos))
-            if ok:
-                ck.vector("get_trajectory", ptag, got, [val(k, s, c) for k in range(ns)], qunit, c_ + " [keyword]")
-            # merged with a position given: position ignored
-            ok, got = ck.call("get_trajectory_merged", ptag, c_ + " merge=True",
-                              lambda: tr.get_trajectory(sp, pos, merge=True))
-            if ok:
-                exp = [float(sum(val(k, s, cc) for cc in range(nc))) for k in range(ns)]
-                ck.vector("get_trajectory_merged", ptag, got, exp, qunit, c_ + " merge=True")
+            if want("get_trajectory"):
+                # per-cell trajectory
+                ok, got = ck.call("get_trajectory", ptag, c_, lambda: tr.get_trajectory(sp, pos))
+                if ok:
+                    ck.vector("get_trajectory", ptag, got, [valf(k, s, c) for k in range(ns)], qunit, c_)
+                ok, got = ck.call("get_trajectory", ptag, c_ + " [keyword]", lambda: tr.get_trajectory(sp, position=pos))
+                if ok:
+                    ck.vector("get_trajectory", ptag, got, [valf(k, s, c) for k in range(ns)], qunit, c_ + " [keyword]")
+            if want("get_trajectory_merged"):
+                # merged with a position given: position ignored
+                ok, got = ck.call("get_trajectory_merged", ptag, c_ + " merge=True",
+                                  lambda: tr.get_trajectory(sp, pos, merge=True))
+                if ok:
+                    exp, scale = _merged(valf, ns, nc, s)
+                    ck.vector("get_trajectory_merged", ptag, got, exp, qunit, c_ + " merge=True", scale)
             for k in samples:
-                # point accessor
-                c_ = "%s get_trajectory_point(species %d as %s, sample %d, position %r)" % (desc, s, spform, k, pos)
-                ok, got = ck.call("get_trajectory_point", ptag, c_, lambda: tr.get_trajectory_point(sp, k, pos))
-                if ok:
-                    ck.scalar("get_trajectory_point", ptag, got, val(k, s, c), qunit, c_)
-                # direct indexing of the data
-                i = flat_index(k, s, c, nsp, nc)
-                c_ = "%s data[%d] (sample %d x nspecies x ncells + species %d x ncells + cell %d)" % (desc, i, k, s, c)
-                ok, got = ck.call("data", kind, c_, lambda: tr.data.get_at(i))
-                if ok:
-                    ck.scalar("data", kind, got, val(k, s, c), qunit, c_)
-                ok, got = ck.call("data", kind, c_, lambda: float(tr.data.value[i]))
-                if ok:
-                    stats["evaluations"] += 1
-                    if got != val(k, s, c):
-                        ck.fail("C17:data:wrong-value:%s" % kind, "%s .value = %r, expected %r" % (c_, got, val(k, s, c)))
+                if want("get_trajectory_point"):
+                    # point accessor
+                    c_ = "%s get_trajectory_point(species %d as %s, sample %d, position %r)" % (desc, s, spform, k, pos)
+                    ok, got = ck.call("get_trajectory_point", ptag, c_, lambda: tr.get_trajectory_point(sp, k, pos))
+                    if ok:
+                        ck.scalar("get_trajectory_point", ptag, got, valf(k, s, c), qunit, c_)
+                if want("data"):
+                    # direct indexing of the data
+                    i = flat_index(k, s, c, nsp, nc)
+                    c_ = "%s data[%d] (sample %d x nspecies x ncells + species %d x ncells + cell %d)" % (desc, i, k, s, c)
+                    ok, got = ck.call("data", kind, c_, lambda: tr.data.get_at(i))
+                    if ok:
+                        ck.scalar("data", kind, got, valf(k, s, c), qunit, c_)
+                    ok, got = ck.call("data", kind, c_, lambda: float(tr.data.value[i]))
+                    if ok:
+                        stats["evaluations"] += 1
+                        if got != valf(k, s, c):
+                            ck.fail("C17:data:wrong-value:%s" % kind, "%s .value = %r, expected %r" % (c_, got, valf(k, s, c)))
 
 
 # ---- sample-index lookup ---------------------------------------------------------------------------
@@ -541,6 +580,186 @@ def _check_accessor_history(case, out, stats):
                         "shape(ns=%d,nsp=%d,nc=%d) %s: after reading every triple through every accessor %s = %r, before %r"
                         % (ns, nsp, nc, space, k, after[k], before[k])))
 
+
+# ---- histories with modifications between the reads (E2) -------------------------------------------
+
+DATA_MODS = ["value-setter", "set_value", "inplace-write", "set_at", "units-relabel"]
+T_MODS = ["t-value-setter", "t-set_at", "t-units-relabel"]
+FIRST_READERS = ["get_state", "get_trajectory", "get_trajectory_merged", "get_trajectory_point", "get_state_whole", "data"]
+PATTERNS = ["R,M,R", "M,R,M,R"]
+OTHER_QUNIT = {"molecule": "pmol", "nmol": "pmol", "µmol": "nmol", "pmol": "nmol"}
+OTHER_TUNIT = {"s": "min", "ms": "s", "min": "h", "h": "min"}
+
+
+def _apply_data_mod(tr, kind, rnd, stats):
+    """one documented way of changing the trajectory's data; returns the text of what was done."""
+    old = [float(x) for x in tr.data.value]
+    cur = uq.sys_of(tr.data.units)[2]
+    a, b = 2 + rnd, 1 + rnd
+    expect, exact = None, True
+    if kind == "value-setter":
+        tr.data.value = tr.data.value * a + b                      # a new ndarray through the property setter
+        expect, text = [x * a + b for x in old], "data.value = data.value*%d+%d" % (a, b)
+    elif kind == "set_value":
+        expect = [x * a + b for x in old]
+        tr.data.set_value(list(expect))
+        text = "data.set_value([x*%d+%d for x in old])" % (a, b)
+    elif kind == "inplace-write":
+        expect = [-x - 1 - rnd for x in old]
+        for i, x in enumerate(expect):
+            tr.data.value[i] = x
+        text = "data.value[i] = -old[i]-%d for every i" % (1 + rnd)
+    elif kind == "set_at":
+        other = OTHER_QUNIT[cur]
+        f = si.QUANTITY[other] / si.QUANTITY[cur]
+        expect, exact = [(F(x) + 1 + rnd) * f for x in old], False
+        for i, x in enumerate(old):
+            tr.data.set_at(i, UnitValue(x + 1 + rnd, other))
+        text = "data.set_at(i, UnitValue(old[i]+%d, %r)) for every i" % (1 + rnd, other)
+    elif kind == "units-relabel":
+        other = OTHER_QUNIT[cur]
+        tr.data.units = other
+        expect, text = old, "data.units = %r" % other
+    else:
+        raise ValueError(kind)
+    now = [float(x) for x in tr.data.value]
+    took = len(now) == len(expect) and all((x == e) if exact else si.rel_err(x, e) <= 1e-12 for x, e in zip(now, expect))
+    stats["modify_steps_reflected_by_direct_indexing" if took else "modify_steps_NOT_reflected_by_direct_indexing"] += 1
+    return text
+
+
+def _read_all(tr, ns, nsp, nc, space, first, out, stats, note, suffix):
+    """first reader (one accessor, all triples), then every accessor in two form combinations; the reference is
+    direct indexing of the CURRENT data and its current units (the statement's own formulation)."""
+    live = [float(x) for x in tr.data.value]
+    if len(live) != ns * nsp * nc:
+        out.append(("C17:modify-data:wrong-length:%s" % suffix, "%sdata has %d entries, expected %d" % (note, len(live), ns * nsp * nc)))
+        return
+    qunit = uq.sys_of(tr.data.units)[2]
+
+    def valf(k, s, c):
+        return live[flat_index(k, s, c, nsp, nc)]
+    grid = space[0] == "grid"
+    _check_accessors(tr, ns, nsp, nc, space, qunit, "label", "index", out, stats, prefix="modify-", valf=valf,
+                     only_sites=[first], suffix=suffix, note=note + " first reader %s: " % first)
+    _check_accessors(tr, ns, nsp, nc, space, qunit, "index", "index", out, stats, prefix="modify-", valf=valf,
+                     suffix=suffix, note=note + " ")
+    _check_accessors(tr, ns, nsp, nc, space, qunit, "object", "tuple" if grid else "index", out, stats, rev=True,
+                     prefix="modify-", valf=valf, suffix=suffix, note=note + " ")
+
+
+def _check_accessor_modify(case, out, stats):
+    import copy
+    ns, nsp, nc, space = case["ns"], case["nsp"], case["nc"], case["space"]
+    tr, data, qunit0 = _mk_traj(ns, nsp, nc, space, case["units"])
+    kind, first = case["kind"], case["first"]
+    hist = []
+
+    def note():
+        return "after [%s] on one object:" % "; ".join(hist)
+    if kind == "deepcopy":
+        _read_all(tr, ns, nsp, nc, space, first, out, stats, "fresh object:", "before-modification")
+        hist.append("read-all")
+        cp = copy.deepcopy(tr)
+        hist.append("cp = copy.deepcopy(traj)")
+        before = [float(x) for x in cp.data.value]
+        hist.append("traj." + _apply_data_mod(tr, "value-setter", 0, stats))
+        stats["evaluations"] += 1
+        if [float(x) for x in cp.data.value] != before:
+            out.append(("C17:modify-deepcopy:copy-follows-original", "%s the copy's data became %r, it was %r"
+                        % (note(), [float(x) for x in cp.data.value], before)))
+        _read_all(cp, ns, nsp, nc, space, first, out, stats, note() + " [reads on cp]", "deepcopy-copy")
+        _read_all(tr, ns, nsp, nc, space, first, out, stats, note() + " [reads on traj]", "deepcopy-original")
+        hist.append("cp." + _apply_data_mod(cp, "set_value", 1, stats))
+        _read_all(cp, ns, nsp, nc, space, first, out, stats, note() + " [reads on cp]", "deepcopy-copy")
+        _read_all(tr, ns, nsp, nc, space, first, out, stats, note() + " [reads on traj]", "deepcopy-original")
+        return
+    nmod = 0
+    steps = case["pattern"].split(",")
+    if case.get("upto") is not None:
+        steps = steps[:case["upto"] + 1]
+    for st in steps:
+        if st == "R":
+            _read_all(tr, ns, nsp, nc, space, first, out, stats, note() if hist else "fresh object:",
+                      ("after-" + kind) if nmod else "before-modification")
+            hist.append("read-all")
+        else:
+            hist.append(_apply_data_mod(tr, kind, nmod, stats))
+            nmod += 1
+
+
+def _apply_t_mod(tr, kind, rnd):
+    n = len(tr.t.value)
+    cur = uq.sys_of(tr.t.units)[1]
+    if kind == "t-value-setter":
+        new = [0.5 + 1.5 * i + rnd for i in range(n)]
+        tr.t.value = new
+        return "t.value = %r" % new
+    if kind == "t-set_at":
+        other = OTHER_TUNIT[cur]
+        for i in range(n):
+            tr.t.set_at(i, UnitValue(3.0 * i + 1 + rnd, other))
+        return "t.set_at(i, UnitValue(3*i+%d, %r)) for every i" % (1 + rnd, other)
+    if kind == "t-units-relabel":
+        other = OTHER_TUNIT[cur]
+        tr.t.units = other
+        return "t.units = %r" % other
+    raise ValueError(kind)
+
+
+def _lookup_pass(tr, out, stats, note, suffix):
+    """lookups against the CURRENT sample times: every stored time, every midpoint, before the first, after the
+    last; in the current unit of t (UnitValue, strict) and in another unit (str, near-tie rule); 3 policies."""
+    cur = uq.sys_of(tr.t.units)[1]
+    stored = [float(x) for x in tr.t.value]
+    T = [F(x) * _tscale(cur) for x in stored]
+    qs = [stored[0] - 1.0] + stored + [(stored[i] + stored[i + 1]) / 2 for i in range(len(stored) - 1)] + [stored[-1] + 1.0]
+    other = OTHER_TUNIT[cur]
+    for v0 in qs:
+        for (qunit, form) in ((cur, "UnitValue"), (other, "str")):
+            v = v0 if qunit == cur else si.to_float(F(v0) * _tscale(cur) / _tscale(qunit))
+            arg = UnitValue(v, qunit) if form == "UnitValue" else "%r %s" % (v, qunit)
+            shown = repr(arg) if form == "str" else "UnitValue(%r, %r)" % (v, qunit)
+            for policy in POLICIES:
+                accept = _accept_set(policy, T, cur, v, qunit)
+                stats["transitions"] += 1
+                stats["evaluations"] += 1
+                ktail = "%s:%s" % (suffix, "same-unit" if qunit == cur else "cross-unit")
+                ctxt = "%s t is now %r %s; get_sample_index(%s, %r)" % (note, stored, cur, shown, policy)
+                try:
+                    got = tr.get_sample_index(arg, policy)
+                except Exception as e:
+                    out.append(("C17:modify-get_sample_index:%s:unexpected-exception:%s" % (policy, ktail),
+                                "%s raised %s: %s" % (ctxt, type(e).__name__, e)))
+                    continue
+                if got is not None and (isinstance(got, bool) or not isinstance(got, numbers.Integral)):
+                    out.append(("C17:modify-get_sample_index:%s:result-type:%s" % (policy, ktail),
+                                "%s returned %r" % (ctxt, got)))
+                    continue
+                if got is not None:
+                    got = int(got)
+                if got not in accept:
+                    out.append(("C17:modify-get_sample_index:%s:wrong-answer:%s" % (policy, ktail),
+                                "%s returned %r, expected %s" % (ctxt, got, " or ".join(repr(x) for x in accept))))
+
+
+def _check_lookup_modify(case, out, stats):
+    n, tunit, kind = case["n"], case["tunit"], case["kind"]
+    system = _mk_system(1, ["grid", 1, 1, 1])
+    tr = RDTrajectory(UnitArray([0.0] * n, "molecule"), UnitArray([float(i) for i in range(n)], tunit), system)
+    hist, nmod = [], 0
+    steps = case["pattern"].split(",")
+    if case.get("upto") is not None:
+        steps = steps[:case["upto"] + 1]
+    for st in steps:
+        if st == "R":
+            _lookup_pass(tr, out, stats, ("after [%s] on one object:" % "; ".join(hist)) if hist else "fresh object:",
+                         ("after-" + kind) if nmod else "before-modification")
+            hist.append("lookups")
+        else:
+            hist.append(_apply_t_mod(tr, kind, nmod))
+            nmod += 1
+
 # ---- unknown species -------------------------------------------------------------------------------
 
 def _check_unknown(case, out, stats):
@@ -627,7 +846,8 @@ def _check_simulated(case, out, stats):
 _STAT_KEYS = ("transitions", "evaluations", "near_tie", "near_tie_not_lattice_answer",
               "dup_any_of_equal_times", "none_expected", "exact_ties_closest", "unknown_species_rejected",
               "simulated_shape_unexpected", "history_steps_refuting_a_cache_on_policy_and_number",
-              "history_steps_refuting_a_cache_on_number")
+              "history_steps_refuting_a_cache_on_number", "modify_steps_reflected_by_direct_indexing",
+              "modify_steps_NOT_reflected_by_direct_indexing")
 
 
 def _new_stats():
@@ -652,6 +872,10 @@ def check_case(case, stats=None):
             _check_lookup_history(case, out, stats)
         elif sub == "accessor-history":
             _check_accessor_history(case, out, stats)
+        elif sub == "accessor-modify":
+            _check_accessor_modify(case, out, stats)
+        elif sub == "lookup-modify":
+            _check_lookup_modify(case, out, stats)
         elif sub == "unknown":
             _check_unknown(case, out, stats)
         elif sub == "simulated":
@@ -812,6 +1036,43 @@ def _spaces(tier):
                "and triples in the opposite order; trajectory unchanged afterwards" % (list(hncs), list(hvariants)),
                gen_hacc, 9 * sum(len(arrangements(nc)) for nc in hncs) * len(hvariants), 4))
 
+    # ---- histories with modifications between the reads
+    if tier == "thorough":
+        mshapes = [(sh, sp_) for sh in shapes() for sp_ in arrangements(sh[2])]
+        mvariants = (0, 2)
+    else:
+        mshapes = [(sh, sp_) for sh in [(1, 1, 1), (2, 1, 1), (1, 2, 1), (1, 1, 2), (2, 3, 2), (3, 2, 3)]
+                   for sp_ in arrangements(sh[2])]
+        mvariants = None          # alternate 0 / 2 along the list
+
+    def gen_mod():
+        for j, ((ns, nsp, nc), space) in enumerate(mshapes):
+            for u in (mvariants if mvariants is not None else ((0, 2)[j % 2],)):
+                for kind in DATA_MODS:
+                    for pattern in PATTERNS:
+                        for first in FIRST_READERS:
+                            yield {"sub": "accessor-modify", "ns": ns, "nsp": nsp, "nc": nc, "space": space, "units": u,
+                                   "kind": kind, "pattern": pattern, "first": first}
+                for first in FIRST_READERS:
+                    yield {"sub": "accessor-modify", "ns": ns, "nsp": nsp, "nc": nc, "space": space, "units": u,
+                           "kind": "deepcopy", "first": first}
+    nvar = len(mvariants) if mvariants is not None else 1
+    sp.append(("accessor-modify: ONE object; %d (shape, arrangement) x %d unit variant(s) x [5 ways of changing the data "
+               "(value setter, set_value, in-place writes, set_at in another unit, units relabel) x {read-all, modify, "
+               "read-all | modify, read-all, modify, read-all} + a deepcopy history] x 6 first readers; reference = direct "
+               "indexing of the current data" % (len(mshapes), nvar),
+               gen_mod, len(mshapes) * nvar * (len(DATA_MODS) * len(PATTERNS) + 1) * len(FIRST_READERS), 6))
+
+    def gen_tmod():
+        for n in (1, 2, 3, 4):
+            for tunit in TUNITS:
+                for kind in T_MODS:
+                    for pattern in PATTERNS:
+                        yield {"sub": "lookup-modify", "n": n, "tunit": tunit, "kind": kind, "pattern": pattern}
+    sp.append(("lookup-modify: ONE object; nsamples 1..4 x 4 storage units x 3 ways of changing t (value setter, set_at in "
+               "another unit, units relabel) x 2 patterns; lookups on every current time / midpoint / outside, 2 units, "
+               "3 policies after each step", gen_tmod, 4 * 4 * len(T_MODS) * len(PATTERNS), 4))
+
     def gen_sim():
         for nsp in (1, 2, 3):
             for nc in (1, 2, 3):
@@ -830,8 +1091,10 @@ def _nontrivial(case):
         return len(case["times"]) > 1 or case["tunit"] != case["qunit"]
     if sub == "lookup-history":
         return case.get("v", 1.0) != 0.0          # the number 0 is the same time in every unit
-    if sub == "accessor-history":
+    if sub in ("accessor-history", "accessor-modify"):
         return case["ns"] * case["nsp"] * case["nc"] > 1
+    if sub == "lookup-modify":
+        return case["n"] > 1
     if sub == "simulated":
         return case["nsp"] * case["nc"] > 1
     return True
@@ -898,6 +1161,14 @@ def _minimise(ctx):
                         break
             elif case.get("sub") == "lookup-history" and "upto" not in case:
                 for n in range(len(_history_steps(case))):
+                    c2 = dict(case)
+                    c2["upto"] = n
+                    hit = [w for (kk, w) in check_case(c2) if kk == v.key]
+                    if hit:
+                        v.case, v.what = c2, hit[0]
+                        break
+            elif case.get("sub") in ("accessor-modify", "lookup-modify") and "upto" not in case and "pattern" in case:
+                for n in range(len(case["pattern"].split(","))):
                     c2 = dict(case)
                     c2["upto"] = n
                     hit = [w for (kk, w) in check_case(c2) if kk == v.key]
